@@ -3,6 +3,7 @@ package rules
 import (
 	"fmt"
 	"go/token"
+	"go/types"
 
 	"golang.org/x/tools/go/ssa"
 
@@ -31,6 +32,21 @@ func runC31(c *core.Ctx) {
 		c.Undecided("anchor", "Bloom.{mutex,filter}", token.NoPos, "fields not found")
 		return
 	}
+	// the reviewed shared state of a Bloom is {filter (guarded by mutex), hashFunc (immutable after construction), mutex};
+	// any other field is shared mutable state nobody classified: the race-freedom claim does not extend to it
+	if bt := c.P.Named(pkg, "Bloom"); bt != nil {
+		if st, ok := bt.Underlying().(*types.Struct); ok {
+			for i := 0; i < st.NumFields(); i++ {
+				switch n := st.Field(i).Name(); n {
+				case "filter", "hashFunc", "mutex":
+					c.Pass("C31/shared-state-reviewed", "Bloom."+n, st.Field(i).Pos(), "reviewed field")
+				default:
+					c.Undecided("C31/shared-state-reviewed", "Bloom."+n, st.Field(i).Pos(), "new field of Bloom: shared state that is not in the reviewed guarded-by table (channels, buffers or counters shared between Add and MayContain can lose or misroute bit indexes)")
+				}
+			}
+		}
+	}
+	// hashFunc is never re-assigned on a shared object
 	fns := c.P.FuncsOfPkg(pkg)
 	entry := core.EntryModes(fns, mu)
 	n := 0
